@@ -221,3 +221,20 @@ pub proof fn lemma_each_len_le_total<K, T>(m: Map<K, Vec<T>>, k: K)
 {
     lemma_set_sum_ge_each(m.dom(), len_of(m), k);
 }
+
+// ---- loader fragments (create_maintenance_slots): look-up by id and time parsing ------------------------
+/// std: `impl Index<&Q> for HashMap<K, V>`: "Panics if the key is not present in the HashMap"
+impl<'a, K, V> std::ops::Index<&'a K> for StdMap<K, V> {
+    type Output = V;
+    #[verifier::external_body]
+    fn index(&self, k: &'a K) -> (r: &V)
+        ensures *r == self@[*k],
+    { unimplemented!() }
+}
+impl<'a, K, V> vstd::std_specs::core::IndexSpecImpl<&'a K> for StdMap<K, V> {
+    open spec fn index_req(&self, k: &&'a K) -> bool { self@.contains_key(**k) }
+}
+/// A-text: the time a date-time string denotes (rapid_time's parser is not under contract; it panics on
+/// malformed strings, `dt_text_ok` says the string is well formed)
+pub uninterp spec fn dt_of_text(s: Seq<char>) -> DateTime;
+pub uninterp spec fn dt_text_ok(s: Seq<char>) -> bool;
